@@ -4,7 +4,7 @@ from . import common
 
 SPEC_THEOREM = 'Props/C06: editor_m (enc inputs) = enc (editor_t inputs); editors preserve well-formedness; documented errors append nothing'
 TRUSTED = ['Coq 8.16.1 kernel', 'translator', 'extraction + OCaml driver', 'Rust harness',
-           'hand-written model: TreeOps.v edits; byte editors (iterators + builders) tied by correspondence']
+           'hand-written model: TreeOps.v edits; concat / delete_by_name / delete_by_index / array_insert / build_array / build_object are offset-faithful byte editors (EditWalk.v over Iter.v + Builder.v) with refinement proofs (C06_*_bytes) and tied by correspondence incl. corrupt buffers; the other editors are view-level, tied by correspondence']
 ASSUMPTIONS = ['inputs are canonical encodings of well-formed values']
 RULE = 'all editors x positions -len-2..len+2 and i32 extremes, key sets (subset/superset/disjoint/empty), key paths into and past scalars, nulls at every depth, empty and singleton containers, container-into-container insertion, interleaved-key merges; non-trivial = result differs from the input and is not an error'
 
@@ -65,6 +65,7 @@ def generate(ctx):
             if r.random() < 0.3 and keys:
                 keys[-1] = keys[0]               # duplicate key: the last one wins
             ctx.add('build_object %s %s' % (gen.hexlist(keys), gen.hexlist([gen.enc(x) for x in items])), meta=('bobj', keys, items))
+    generate_malformed(ctx)
     # documented error cases with a non-empty buffer: nothing may be appended
     pre = 'aabbcc'
     for v in ds[:60]:
@@ -77,10 +78,74 @@ def generate(ctx):
         ctx.add('delete_by_keypath@%s %s i0' % (pre, e), meta=('err', v))
 
 
+def safe_mutations(r, e):
+    """prefixes and one-byte mutations of an encoding that keep the top-level count small: the editors call
+    ArrayBuilder::new(count) / VecDeque::with_capacity(count) with the count field of the header, so a count near 2^29
+    makes the process allocate gigabytes or abort (no panic, no error: the harness process dies).  Byte 0 only takes
+    values with the low five bits clear (type bits only), byte 1 (count bits 16..23) is never touched."""
+    muts = [e[:i] for i in range(len(e))] if len(e) <= 40 else [e[:r.randrange(len(e))] for _ in range(12)]
+    for _ in range(14):
+        i = r.randrange(len(e))
+        if i == 1:
+            continue
+        if i == 0:
+            b = r.choice([0x80, 0x40, 0x20, 0x00, 0x60, 0xa0, 0xc0, 0xe0])
+        else:
+            b = r.choice([0, 1, 4, 0x10, 0x20, 0x40, 0x50, 0x7f, 0x80, 0xff, e[i] ^ 1, e[i] ^ 0x10, (e[i] + 1) & 0xff])
+        muts.append(e[:i] + bytes([b]) + e[i + 1:])
+    return muts
+
+
+_CTX = [None]
+
+
+def generate_malformed(ctx):
+    # the byte editors on buffers that are NOT valid encodings: C06 says nothing about them, but the offset-faithful
+    # models (EditWalk.v) do, including where an index expression panics and what an error return leaves in the buffer;
+    # this stream only feeds the correspondence tie (the C06_*_bytes theorems are about the model the tie checks)
+    r = ctx.rng
+    _CTX[0] = ctx
+    small = [v for v in ctx.ds if len(gen.enc(v)) <= 120]
+    for v in r.sample(small, min(len(small), ctx.scale(120, 3000))):
+        e = gen.enc(v)
+        w = r.choice(small)
+        we = gen.hexarg(gen.enc(w))
+        ks = common.key_variants(ctx, v)
+        for m in safe_mutations(r, e):
+            h = gen.hexarg(m)
+            pre = '@aabbcc' if r.random() < 0.3 else ''
+            i = r.randrange(-3, 4)
+            ctx.add('concat%s %s %s' % (pre, h, we), kind='malformed')
+            ctx.add('concat%s %s %s' % (pre, we, h), kind='malformed')
+            ctx.add('delete_by_name%s %s %s' % (pre, h, gen.hexarg(r.choice(ks))), kind='malformed')
+            ctx.add('delete_by_index%s %s %d' % (pre, h, i), kind='malformed')
+            ctx.add('array_insert%s %s %d %s' % (pre, h, i, we), kind='malformed')
+            ctx.add('array_insert%s %s %d %s' % (pre, we, i, h), kind='malformed')
+            if r.random() < 0.5:
+                items = [gen.enc(w), m] if r.random() < 0.5 else [m, gen.enc(w), m]
+                ctx.add('build_array%s %s' % (pre, gen.hexlist(items)), kind='malformed')
+                keys = [ctx.g.key() for _ in items]
+                ctx.add('build_object%s %s %s' % (pre, gen.hexlist(keys), gen.hexlist(items)), kind='malformed')
+
+
+def normalise_outcome(c, o):
+    # a malformed case on which the Rust process died of an allocation failure is not judged
+    ctx = _CTX[0]
+    if c.kind == 'malformed' and ctx is not None and ctx.impl.get(c.id, '').startswith('abort:'):
+        return 'skipped: allocation'
+    return o
+
+
 def judge(ctx):
     for c in ctx.cases:
         o = ctx.impl.get(c.id, 'missing')
         m = c.meta
+        if c.kind == 'malformed':
+            if o.startswith('abort:'):
+                ctx.count('malformed_skipped_allocation')
+            else:
+                ctx.count('malformed_outcome', o.split(' ', 1)[0])
+            continue
         if o == 'panic':
             ctx.violate('editor panics on valid input', case=c.line, observed=o)
             continue
